@@ -37,6 +37,10 @@ type C20Params struct {
 	// epochs a KeyUpdate can be sent under are injected into each side at drawn times during the
 	// workload - what anybody who can spoof the peer's address can send without any key
 	ForgeAck int `json:"forge_ack,omitempty"`
+	// ShortCtx: every other UpdateKeys call gets a context that expires after ShortCtxMs - a
+	// caller that gives up while the KeyUpdate or its ACK is being lost. The update itself is
+	// not undone by that (the message has consumed its message_seq and may have been processed).
+	ShortCtxMs int `json:"short_ctx_ms,omitempty"`
 }
 
 func c20Counts(tier string) (int, int) {
@@ -57,6 +61,9 @@ func c20Gen(r *rand.Rand, tier string, idx int) any {
 	}
 	if r.IntN(4) == 0 {
 		p.ForgeAck = 1 + r.IntN(12)
+	}
+	if r.IntN(3) == 0 {
+		p.ShortCtxMs = []int{1, 5, 30, 200, 1100, 2500}[r.IntN(6)]
 	}
 	if r.IntN(3) != 0 {
 		p.Rules = NetRules{DropPm: 30 + r.IntN(250), DupPm: r.IntN(150), HoldPm: r.IntN(150), FaultsUntilNs: int64(time.Second) * int64(1+r.IntN(20)),
@@ -133,6 +140,7 @@ func c20Run(rc *RunCtx, params any) {
 		err     error
 		retSeq  uint64
 		callSeq uint64
+		short   bool
 	}
 	var upds []*upd
 	live := 0
@@ -179,8 +187,12 @@ func c20Run(rc *RunCtx, params any) {
 					u := &upd{ep: ep}
 					upds = append(upds, u)
 					req := p.Request == 1 || (p.Request == 2 && (k+g)%2 == 0)
-					ctx, cancel := context.WithTimeout(context.Background(), s.Uniq(3*time.Minute))
-					u.callSeq = s.Record("op-call", ep, fmt.Sprintf("UpdateKeys request=%v", req), nil)
+					to := 3 * time.Minute
+					if p.ShortCtxMs > 0 && (k+g)%2 == 0 {
+						to, u.short = time.Duration(p.ShortCtxMs)*time.Millisecond, true
+					}
+					ctx, cancel := context.WithTimeout(context.Background(), s.Uniq(to))
+					u.callSeq = s.Record("op-call", ep, fmt.Sprintf("UpdateKeys request=%v timeout=%v", req, to), nil)
 					u.err = conn.UpdateKeys(ctx, dtls.KeyUpdateOptions{RequestPeerUpdate: req})
 					cancel()
 					u.retSeq = s.Record("op-ret", ep, fmt.Sprintf("UpdateKeys err=%v", u.err), nil)
@@ -236,6 +248,21 @@ func c20Run(rc *RunCtx, params any) {
 	for _, u := range upds {
 		// the link is reliable at the latest 20 s after the workload began: an update that has not
 		// been acknowledged three minutes after it was requested is not going to be
+		isDeadline := u.err != nil && (errors.Is(u.err, context.DeadlineExceeded) || contains(u.err.Error(), "deadline"))
+		if u.done && u.err != nil && !isDeadline {
+			// nobody closes these connections and nothing the network does to datagrams is a reason
+			// to fail an update with anything but the caller's own deadline
+			rc.Violate("update-failed", "%s: UpdateKeys failed with %q (not the caller's deadline) on a connection nobody closed", u.ep, u.err)
+
+			return
+		}
+		if u.short {
+			if isDeadline {
+				s.Probe("update-abandoned-by-caller")
+			}
+
+			continue
+		}
 		if u.done && u.err != nil && (errors.Is(u.err, context.DeadlineExceeded) || contains(u.err.Error(), "deadline")) {
 			rc.Violate("update-never-completed", "%s: UpdateKeys gave up after three minutes on a link that had been reliable for more than two of them (writers ticking every %d ms): %v", u.ep, p.TickMs, u.err)
 
@@ -245,6 +272,55 @@ func c20Run(rc *RunCtx, params any) {
 	n.MakeReliable()
 	s.Policy.Active = false
 	s.Run(func() bool { return false }, 5*time.Second)
+	// aftermath: on the now reliable link each side updates once more and writes one more payload:
+	// whatever happened to earlier updates (lost, abandoned by their callers, acknowledged late),
+	// the connection must still be able to do both
+	if !stuck {
+		for _, ep := range []string{"c", "s"} {
+			ep := ep
+			conn := pair.ConnOf(ep)
+			var aerr error
+			adone := false
+			s.Go(ep+"-aftermath", func() {
+				ctx, cancel := context.WithTimeout(context.Background(), s.Uniq(4*time.Minute))
+				defer cancel()
+				aerr = conn.UpdateKeys(ctx, dtls.KeyUpdateOptions{})
+				adone = true
+			})
+			s.Run(func() bool { return adone }, 5*time.Minute)
+			if !adone || aerr != nil {
+				rc.Violate("update-failed-after-heal", "%s: an UpdateKeys issued on the healed link (5 s after the last fault, %d earlier updates on this side, caller timeout of every other one %d ms) did not succeed within four minutes: done=%v err=%v", ep, map[string]int{"c": p.UpdatesC, "s": p.UpdatesS}[ep], p.ShortCtxMs, adone, aerr)
+
+				return
+			}
+			pl := Payload(ep, 9, 0, 28)
+			written[ep] = append(written[ep], pl)
+			if werr := pair.WriteSync(ep, pl, 10*time.Second); werr != nil {
+				rc.Violate("write-failed-after-heal", "%s: Write after the final update: %v", ep, werr)
+
+				return
+			}
+			rd := rdS
+			if ep == "s" {
+				rd = rdC
+			}
+			got := func() bool {
+				for _, g := range rd.Got {
+					if bytes.Equal(g, pl) {
+						return true
+					}
+				}
+
+				return false
+			}
+			if !s.Run(got, 10*time.Second) && !got() {
+				rc.Violate("lost-after-heal", "the payload %s wrote after its final key update on the healed link was not delivered within 10 s", ep)
+
+				return
+			}
+		}
+		s.Probe("aftermath-update-and-write-checked")
+	}
 	// delayed duplicates of earlier data-phase datagrams
 	if p.Replay > 0 && len(n.Emits) > dataFrom {
 		for i := 0; i < p.Replay; i++ {
